@@ -7,6 +7,7 @@ import (
 
 	"github.com/internetarchive/Zeno/internal/pkg/log"
 	"github.com/internetarchive/Zeno/internal/pkg/source/lq/sqlc_model"
+	"github.com/internetarchive/Zeno/internal/pkg/verifhook"
 )
 
 // producerBatch represents a batch of URLs to be added to LQ.
@@ -141,6 +142,7 @@ func producerDispatcher(ctx context.Context, wg *sync.WaitGroup, batchCh chan *p
 			if err := globalLQ.client.Add(ctx, batch.URLs, false); err != nil {
 				logger.Error("failed to send batch to LQ", "error", err)
 			}
+			verifhook.At("lq.added", batch.URLs)
 		}
 	}
 }
